@@ -77,6 +77,9 @@ var behaviours = []behaviour{
 	{"FailNow-in-timed-stage", true, func(t *f1testing.T) { t.Time("stage", func() { t.FailNow() }) }},
 	{"panic(string)-in-timed-stage", true, func(t *f1testing.T) { t.Time("stage", func() { panic("boom") }) }},
 	{"runtime-error-in-timed-stage", true, func(t *f1testing.T) { t.Time("stage", func() { var m map[string]int; m["x"] = 1 }) }},
+	{"panic(error-spelled-FailNow)", true, func(t *f1testing.T) { panic(errors.New("FailNow")) }},
+	{"Fail-then-a-passing-timed-stage", true, func(t *f1testing.T) { t.Fail(); t.Time("stage", func() {}) }},
+	{"Errorf-then-a-passing-timed-stage", true, func(t *f1testing.T) { t.Errorf("e"); t.Time("", func() {}) }},
 	{"Log+Logf+timed-stage", false, func(t *f1testing.T) { t.Log("x", 1); t.Logf("%d", 1); t.Time("stage", func() {}) }},
 }
 
